@@ -48,6 +48,38 @@ pub struct SolverCache<D: DependencyProvider> {
     hint_dependencies_available: RefCell<BitVec>,
 }
 
+/// Awaits all the given futures concurrently and returns their outputs in the order
+/// of the futures, or the first error as soon as any of them fails.
+///
+/// `futures::future::try_join_all` makes the same promise only for small inputs: for
+/// more than 30 futures it switches to an ordered stream that reports the error of a
+/// future only after every earlier future has completed. A cancellation observed by
+/// a later member of a large union was therefore held back while earlier members
+/// were still waiting for the provider, and the solver kept starting new requests.
+pub(crate) async fn try_join_all_fail_fast<T, E, F>(
+    futures: impl IntoIterator<Item = F>,
+) -> Result<Vec<T>, E>
+where
+    F: std::future::Future<Output = Result<T, E>>,
+{
+    use futures::StreamExt;
+
+    let mut pending = futures
+        .into_iter()
+        .enumerate()
+        .map(|(index, future)| async move { (index, future.await) })
+        .collect::<futures::stream::FuturesUnordered<_>>();
+    let mut outputs = Vec::new();
+    outputs.resize_with(pending.len(), || None);
+    while let Some((index, output)) = pending.next().await {
+        outputs[index] = Some(output?);
+    }
+    Ok(outputs
+        .into_iter()
+        .map(|output| output.expect("every future has completed"))
+        .collect())
+}
+
 /// Removes the in-flight marker of a candidates request and notifies its
 /// listeners when dropped, unless the request already did so itself.
 struct InFlightGuard<'a> {
@@ -295,7 +327,7 @@ impl<D: DependencyProvider> SolverCache<D> {
                 match self.requirement_to_sorted_candidates.get(&requirement) {
                     Some(candidates) => Ok(candidates),
                     None => {
-                        let sorted_candidates = futures::future::try_join_all(
+                        let sorted_candidates = try_join_all_fail_fast(
                             self.provider()
                                 .version_sets_in_union(version_set_union_id)
                                 .map(|version_set_id| {
